@@ -35,9 +35,10 @@ def obligations(tier):
     obs.append(ch("sami_3", "harness.C01_sami", timeout=T, functions=SA, exhaustive=True,
                   bounds="3 syncs, all instants < 100 h in ms, 5 paragraph shapes per sync (125 structures)"))
     # E2: float kernels
-    for fps in (["25.0", "23.976", "29.97", "30"] if q else ["25.0", "25", "23.976", "23.98", "24", "29.97", "30", "50", "59.94", "60", "12.5", "15", "100", "119.88"]):
-        obs.append(smt(f"microdvd_fps_{fps}", "smt.C01_fp", "microdvd_read", args=dict(fps_text=fps, nmax=90000000 if fps == "25.0" else 10000000),
-                       timeout=600, engine="E2 fplia (AST -> QF_LIA, z3)"))
+    for fps in (["25.0", "23.976", "24", "29.97"] if q else ["25.0", "25", "23.976", "23.98", "24", "29.97", "30", "50", "59.94", "60", "12.5", "15", "100", "119.88"]):
+        for which in ("start", "end"):
+            obs.append(smt(f"microdvd_{which}_fps_{fps}", "smt.C01_fp", "microdvd_read_public", args=dict(fps_text=fps, which=which, nmax=90000000),
+                           timeout=600, engine="E2 fplia (AST of read() + inlined helpers -> QF_LIA, z3)"))
     for met in ("h", "m", "s", "ms", "f"):
         for k in ((0, 1, 3) if q else (0, 1, 2, 3, 4, 6)):
             obs.append(smt(f"ttml_offset_{met}_k{k}", "smt.C01_fp", "dfxp_offset", args=dict(metric=met, k=k, pmax=10**6 - 1 if k <= 3 else 10**9),
@@ -52,7 +53,7 @@ ASSUME = [
     "one stamp position is symbolic per contract, the other stamps of the template are concrete",
     "bs4/lxml attribute extraction and tree building are outside (contract: attribute text is handed over verbatim); SAMI text conversion stubbed (C04)",
     "float(<numeral text>) in SAMIReader._translate_lang is stubbed by its contract (the numeral's value)",
-    "E2: finite, normal doubles; MicroDVD frame numbers <= 9*10^7 (10^7 for declared rates), TTML counts < 10^6 with k fraction digits",
+    "E2: finite, normal doubles; MicroDVD frame numbers <= 9*10^7 (1000 h at 25 fps) through the public read() with one symbolic frame number, TTML counts < 10^6 with k fraction digits",
     "TTML frame rate fixed at 30 (the reader ignores ttp:frameRate); tick metric 't' unsupported by the reader (NotImplementedError), outside the statement",
 ]
 
